@@ -24,7 +24,9 @@ EXPLANATION = ("Every pixel of every input slice is symbolic. For each of the 48
                "model file system, the volume is read back and the solver proves out[c,z,y,x] equal to the pixel the "
                "orientation code designates (axes permuted and reversed as the help text defines), every chunk written once.")
 BOUNDS = {"quick": "all 48 codes x 2 RAS sizes (non-cubic, up to 3x2x4) with chunk sizes making slice counts <, = and not divisible "
-                   "by the chunk depth; 1-2 channel directories and RGB slices; uint8/uint16",
+                   "by the chunk depth; 1-2 channel directories and RGB slices; uint8/uint16; 4 configurations through main(argv): slice "
+                   "directories listed in an adversarial order (names whose lexicographic, numeric and creation orders differ), lower-case "
+                   "orientation code, conversion run twice",
           "thorough": "all 48 codes x 6 sizes x 3 chunk sizes"}
 OUTSIDE = ["TIFF/PNG decoding (scikit-image)", "pixel type conversion beyond uint8/uint16 identity (C11)"]
 
@@ -44,6 +46,10 @@ def configs(tier, seed):
             mode = ("grey", "two_dirs", "rgb")[(i + j) % 3]
             out.append(dict(harness="orient", code=code, size=list(size), cs=list(cs), mode=mode,
                             dtype=("uint8", "uint16")[(i + j) % 2], cost=1))
+    # through main(argv): directory listing, lexicographic slice order, lower-case orientation code; conversion run twice
+    for code, size, cs, mode in (("RAS", (2, 2, 5), (2, 2, 2), "grey"), ("LIP", (3, 4, 2), (2, 2, 2), "two_dirs"), ("SPL", (4, 2, 2), (2, 2, 2), "rgb"),
+                                 ("AIR", (2, 3, 4), (2, 2, 3), "grey")):
+        out.append(dict(harness="orient", code=code, size=list(size), cs=list(cs), mode=mode, dtype="uint8", via_main=True, repeat=True, cost=2))
     return out
 
 
@@ -67,10 +73,13 @@ def H_orient(ctx, cfg):
     images = {}
     lists = []
     allpix = []
+    via_main = cfg.get("via_main", False)
     for d in range(ndirs):
         names = []
         for s in range(in_size[2]):
-            name = f"/mfs/in{d}/slice{s:03d}.tif"
+            # through the command line the slices are found by listing the directory: names whose lexicographic order is the
+            # slice order but neither the creation order nor the numeric order ("b10" < "b9")
+            name = f"/mfs/in{d}/slice{s:03d}.tif" if not via_main else f"/mfs/in{d}/{'cba'[s % 3] if s < 3 else 'd' + str(13 - s)}.tif"
             shape = (in_size[1], in_size[0]) + ((3,) if mode == "rgb" else ())
             img = SArray.fresh(shape, dtype, f"px{d}_{s}")
             images[name] = img
@@ -91,18 +100,40 @@ def H_orient(ctx, cfg):
         from ..sarray import h_concatenate
         return h_concatenate(arrs)
     sk = types.SimpleNamespace(io=types.SimpleNamespace(imread=imread, concatenate_images=concatenate_images))
-    mod = W.script("slices_to_precomputed", np=W.npx, skimage=sk, tqdm=V.NoTqdm, trange=V.trange)
+    mod = W.script("slices_to_precomputed", np=W.npx, skimage=sk, tqdm=V.NoTqdm, trange=V.trange, Path=W.env.pathlib.Path)
     info = V.make_info(dtype, C, size, cs)
     url = "/mfs/out"
     W.put_info(url, info)
-    try:
-        mod.slices_to_raw_chunks(lists, url, code, options={})
-    except Exception as e:
-        if type(e).__name__ in ("OutsideModel", "Inconclusive"):
-            raise
-        ctx.fail("conversion-raised", detail=f"{type(e).__name__}: {e}", exc=repr(e)[:200])
-        return
-    W.finish()
+    if via_main:
+        from ..sbytes import SBytes
+        for names in lists:
+            lexi = sorted(names)
+            # the file created first is the lexicographically last one
+            for nm in reversed(lexi):
+                W.env.fs.mkdir_p(nm.rsplit("/", 1)[0])
+                W.env.fs.files[nm] = SBytes(b"")
+            # the stack order the documentation promises: lexicographic order of the names
+        images = {nm: img for names in lists for nm, img in zip(sorted(names), [images[n] for n in names])}
+        lists = [sorted(names) for names in lists]
+        load.patch("utils", init_logging_for_cmdline=lambda: None)
+    for attempt in range(2 if cfg.get("repeat") else 1):
+        try:
+            if via_main:
+                try:
+                    rc = mod.main(["slices-to-precomputed"] + [f"/mfs/in{d}" for d in range(ndirs)] + [url, "--input-orientation", code.lower()])
+                except SystemExit as e:
+                    rc = e.code
+                ctx.prove(rc == 0, "exit-status-0", detail=str(rc))
+                if rc != 0:
+                    return
+            else:
+                mod.slices_to_raw_chunks(lists, url, code, options={})
+        except Exception as e:
+            if type(e).__name__ in ("OutsideModel", "Inconclusive"):
+                raise
+            ctx.fail("conversion-raised", detail=f"run {attempt}: {type(e).__name__}: {e}", exc=repr(e)[:200])
+            return
+        W.finish()
     out, problems, _ = W.read_scale(url, info, 0, {})
     ctx.sample(dict(code=code, ras_size=size, chunk=cs, mode=mode))
     if problems:
@@ -155,14 +186,33 @@ def replay(cfg, cex):
         lists.append(names)
     import skimage.io
     orig = skimage.io.imread
-    skimage.io.imread = lambda fn, **kw: images[str(fn)]
+    via_main = cfg.get("via_main", False)
+    skimage.io.imread = lambda fn, **kw: images[str(fn)] if not via_main else by_path[os.path.realpath(str(fn))]
+    by_path = {}
     try:
-        with tempfile.TemporaryDirectory() as td:
+        with tempfile.TemporaryDirectory() as td, tempfile.TemporaryDirectory() as tin:
             info = V.make_info(dtype, C, size, cs)
             acc = acc_mod.get_accessor_for_url(td, {})
             pio.get_IO_for_new_dataset(info, acc)
             try:
-                mod.slices_to_raw_chunks(lists, td, code, options={})
+                if via_main:
+                    # real directories with empty files named as in the harness (lexicographic order = slice order)
+                    for d in range(ndirs):
+                        os.makedirs(os.path.join(tin, f"in{d}"))
+                        fnames = sorted(f"{'cba'[s_ % 3] if s_ < 3 else 'd' + str(13 - s_)}.tif" for s_ in range(in_size[2]))
+                        for s_, fname in reversed(list(enumerate(fnames))):
+                            full = os.path.join(tin, f"in{d}", fname)
+                            open(full, "wb").close()
+                            by_path[os.path.realpath(full)] = images[lists[d][s_]]
+                    for attempt in range(2 if cfg.get("repeat") else 1):
+                        try:
+                            rc = mod.main(["slices-to-precomputed"] + [os.path.join(tin, f"in{d}") for d in range(ndirs)] + [td, "--input-orientation", code.lower()])
+                        except SystemExit as e:
+                            rc = e.code
+                        if rc != 0:
+                            return True, f"orientation {code}: slices-to-precomputed (run {attempt + 1}) exited with {rc}"
+                else:
+                    mod.slices_to_raw_chunks(lists, td, code, options={})
             except Exception as e:
                 return True, f"orientation {code}, size {size}, chunks {cs}: conversion raised {type(e).__name__}: {e}"
             r = pio.get_IO_for_existing_dataset(acc_mod.get_accessor_for_url(td, {}))
